@@ -11,13 +11,13 @@
 //!               (what the code can reach sequentially: a thief cannot refresh its victim's counter)
 use super::*;
 
-pub(crate) type T = u8;
+pub(crate) type It = u8;
 pub(crate) const CAP: usize = 2;
 pub(crate) const MAXK: usize = crossbeam_skiplist::MAXKEYS;
-const WB: usize = 4; // st3 shim ring size
+const WB: usize = st3::fifo::MAXCAP; // st3 shim ring size
 const IB: usize = crossbeam_deque::MAXQ;
 
-fn any_worker(max: usize) -> Worker<T> {
+fn any_worker(max: usize) -> Worker<It> {
     let w = Worker::new(CAP);
     let n: usize = kani::any();
     kani::assume(n <= max && n <= CAP);
@@ -26,18 +26,18 @@ fn any_worker(max: usize) -> Worker<T> {
     let i = w.inner();
     i.head = h;
     let mut k = 0;
-    while k < n { let v: T = kani::any(); i.buf[(h + k) % WB] = Some(v); k += 1; }
+    while k < n { let v: It = kani::any(); i.buf[(h + k) % WB] = Some(v); k += 1; }
     i.len = n;
     w
 }
 
-fn any_injector(max: usize) -> Injector<T> {
+fn any_injector(max: usize) -> Injector<It> {
     let q = Injector::new();
     let n: usize = kani::any();
     kani::assume(n <= max);
     let i = q.inner();
     let mut k = 0;
-    while k < n { let v: T = kani::any(); i.buf[k] = Some(v); k += 1; }
+    while k < n { let v: It = kani::any(); i.buf[k] = Some(v); k += 1; }
     i.len = n;
     q
 }
@@ -50,123 +50,118 @@ fn any_keys() -> (c_longlong, c_longlong) {
     (a, b)
 }
 
-pub(crate) fn any_local_map(max_items: usize) -> SkipMap<c_longlong, Worker<T>> {
-    let m = SkipMap::new();
-    let (a, b) = any_keys();
-    let s = m.raw();
-    if kani::any() { s[0] = Some((a, any_worker(max_items))); }
-    if kani::any() { s[1] = Some((b, any_worker(max_items))); }
-    m
+pub(crate) type LSlot = Option<(c_longlong, Worker<It>)>;
+pub(crate) type GSlot = Option<(c_longlong, Injector<It>)>;
+/// the three slot objects of one map live in the harness (typed stack objects), see the shim's layout note
+pub(crate) struct LSlots(pub LSlot, pub LSlot, pub LSlot);
+pub(crate) struct GSlots(pub GSlot, pub GSlot, pub GSlot);
+impl LSlots {
+    pub(crate) fn empty() -> Self { LSlots(None, None, None) }
+    /// up to two occupied priorities with up to `max_items` items each
+    pub(crate) fn any(max_items: usize) -> Self {
+        let (a, b) = any_keys();
+        LSlots(if kani::any() { Some((a, any_worker(max_items))) } else { None }, if kani::any() { Some((b, any_worker(max_items))) } else { None }, None)
+    }
+    pub(crate) fn map(&mut self) -> SkipMap<c_longlong, Worker<It>> { unsafe { SkipMap::from_slots(&raw mut self.0, &raw mut self.1, &raw mut self.2) } }
 }
-
-pub(crate) fn any_shared_map(max_items: usize) -> SkipMap<c_longlong, Injector<T>> {
-    let m = SkipMap::new();
-    let (a, b) = any_keys();
-    let s = m.raw();
-    if kani::any() { s[0] = Some((a, any_injector(max_items))); }
-    if kani::any() { s[1] = Some((b, any_injector(max_items))); }
-    m
+impl GSlots {
+    pub(crate) fn empty() -> Self { GSlots(None, None, None) }
+    pub(crate) fn any(max_items: usize) -> Self {
+        let (a, b) = any_keys();
+        GSlots(if kani::any() { Some((a, any_injector(max_items))) } else { None }, if kani::any() { Some((b, any_injector(max_items))) } else { None }, None)
+    }
+    pub(crate) fn map(&mut self) -> SkipMap<c_longlong, Injector<It>> { unsafe { SkipMap::from_slots(&raw mut self.0, &raw mut self.1, &raw mut self.2) } }
 }
 
 // ---------------------------------------------------------------------------------------------- views
-pub(crate) fn w_len(w: &Worker<T>) -> usize { w.inner().len }
-pub(crate) fn w_at(w: &Worker<T>, k: usize) -> T { let i = w.inner(); i.buf[(i.head + k) % WB].unwrap_or(0) }
-pub(crate) fn i_len(q: &Injector<T>) -> usize { q.inner().len }
-pub(crate) fn i_at(q: &Injector<T>, k: usize) -> T { let i = q.inner(); i.buf[(i.head + k) % IB].unwrap_or(0) }
+pub(crate) fn w_len(w: &Worker<It>) -> usize { w.inner().len }
+pub(crate) fn w_at(w: &Worker<It>, k: usize) -> It { let i = w.inner(); i.buf[(i.head + k) % WB].unwrap_or(0) }
+pub(crate) fn i_len(q: &Injector<It>) -> usize { q.inner().len }
+pub(crate) fn i_at(q: &Injector<It>, k: usize) -> It { let i = q.inner(); i.buf[(i.head + k) % IB].unwrap_or(0) }
 
-pub(crate) fn l_items(m: &SkipMap<c_longlong, Worker<T>>) -> usize {
-    let s = m.raw();
+pub(crate) fn l_items(m: &SkipMap<c_longlong, Worker<It>>) -> usize {
     let mut n = 0;
     let mut j = 0;
-    while j < MAXK { if let Some((_, w)) = &s[j] { n += w_len(w); } j += 1; }
+    while j < MAXK { if let Some((_, w)) = m.slot(j) { n += w_len(w); } j += 1; }
     n
 }
-pub(crate) fn g_items(m: &SkipMap<c_longlong, Injector<T>>) -> usize {
-    let s = m.raw();
+pub(crate) fn g_items(m: &SkipMap<c_longlong, Injector<It>>) -> usize {
     let mut n = 0;
     let mut j = 0;
-    while j < MAXK { if let Some((_, q)) = &s[j] { n += i_len(q); } j += 1; }
+    while j < MAXK { if let Some((_, q)) = m.slot(j) { n += i_len(q); } j += 1; }
     n
 }
 /// occurrences of item value x (conservation is stated as: for every x, the count is preserved)
-pub(crate) fn l_count(m: &SkipMap<c_longlong, Worker<T>>, x: T) -> usize {
-    let s = m.raw();
+pub(crate) fn l_count(m: &SkipMap<c_longlong, Worker<It>>, x: It) -> usize {
     let mut n = 0;
     let mut j = 0;
     while j < MAXK {
-        if let Some((_, w)) = &s[j] { let mut k = 0; while k < w_len(w) { if w_at(w, k) == x { n += 1; } k += 1; } }
+        if let Some((_, w)) = m.slot(j) { let mut k = 0; while k < w_len(w) { if w_at(w, k) == x { n += 1; } k += 1; } }
         j += 1;
     }
     n
 }
-pub(crate) fn g_count(m: &SkipMap<c_longlong, Injector<T>>, x: T) -> usize {
-    let s = m.raw();
+pub(crate) fn g_count(m: &SkipMap<c_longlong, Injector<It>>, x: It) -> usize {
     let mut n = 0;
     let mut j = 0;
     while j < MAXK {
-        if let Some((_, q)) = &s[j] { let mut k = 0; while k < i_len(q) { if i_at(q, k) == x { n += 1; } k += 1; } }
+        if let Some((_, q)) = m.slot(j) { let mut k = 0; while k < i_len(q) { if i_at(q, k) == x { n += 1; } k += 1; } }
         j += 1;
     }
     n
 }
 /// (priority, head item) of the smallest non-empty priority
-pub(crate) fn l_front(m: &SkipMap<c_longlong, Worker<T>>) -> Option<(c_longlong, T)> {
-    let s = m.raw();
-    let mut best: Option<(c_longlong, T)> = None;
+pub(crate) fn l_front(m: &SkipMap<c_longlong, Worker<It>>) -> Option<(c_longlong, It)> {
+    let mut best: Option<(c_longlong, It)> = None;
     let mut j = 0;
     while j < MAXK {
-        if let Some((k, w)) = &s[j] { if w_len(w) > 0 { match best { Some((bk, _)) if bk < *k => {} _ => { best = Some((*k, w_at(w, 0))); } } } }
+        if let Some((k, w)) = m.slot(j) { if w_len(w) > 0 { match best { Some((bk, _)) if bk < *k => {} _ => { best = Some((*k, w_at(w, 0))); } } } }
         j += 1;
     }
     best
 }
-pub(crate) fn g_front(m: &SkipMap<c_longlong, Injector<T>>) -> Option<(c_longlong, T)> {
-    let s = m.raw();
-    let mut best: Option<(c_longlong, T)> = None;
+pub(crate) fn g_front(m: &SkipMap<c_longlong, Injector<It>>) -> Option<(c_longlong, It)> {
+    let mut best: Option<(c_longlong, It)> = None;
     let mut j = 0;
     while j < MAXK {
-        if let Some((k, q)) = &s[j] { if i_len(q) > 0 { match best { Some((bk, _)) if bk < *k => {} _ => { best = Some((*k, i_at(q, 0))); } } } }
+        if let Some((k, q)) = m.slot(j) { if i_len(q) > 0 { match best { Some((bk, _)) if bk < *k => {} _ => { best = Some((*k, i_at(q, 0))); } } } }
         j += 1;
     }
     best
 }
 /// occurrences of x stored under priority p
-pub(crate) fn l_count_at(m: &SkipMap<c_longlong, Worker<T>>, p: c_longlong, x: T) -> usize {
-    let s = m.raw();
+pub(crate) fn l_count_at(m: &SkipMap<c_longlong, Worker<It>>, p: c_longlong, x: It) -> usize {
     let mut n = 0;
     let mut j = 0;
     while j < MAXK {
-        if let Some((k, w)) = &s[j] { if *k == p { let mut i = 0; while i < w_len(w) { if w_at(w, i) == x { n += 1; } i += 1; } } }
+        if let Some((k, w)) = m.slot(j) { if *k == p { let mut i = 0; while i < w_len(w) { if w_at(w, i) == x { n += 1; } i += 1; } } }
         j += 1;
     }
     n
 }
-pub(crate) fn g_count_at(m: &SkipMap<c_longlong, Injector<T>>, p: c_longlong, x: T) -> usize {
-    let s = m.raw();
+pub(crate) fn g_count_at(m: &SkipMap<c_longlong, Injector<It>>, p: c_longlong, x: It) -> usize {
     let mut n = 0;
     let mut j = 0;
     while j < MAXK {
-        if let Some((k, q)) = &s[j] { if *k == p { let mut i = 0; while i < i_len(q) { if i_at(q, i) == x { n += 1; } i += 1; } } }
+        if let Some((k, q)) = m.slot(j) { if *k == p { let mut i = 0; while i < i_len(q) { if i_at(q, i) == x { n += 1; } i += 1; } } }
         j += 1;
     }
     n
 }
 /// the last item stored under priority p (None if that priority is empty or absent)
-pub(crate) fn l_back_at(m: &SkipMap<c_longlong, Worker<T>>, p: c_longlong) -> Option<T> {
-    let s = m.raw();
+pub(crate) fn l_back_at(m: &SkipMap<c_longlong, Worker<It>>, p: c_longlong) -> Option<It> {
     let mut j = 0;
-    while j < MAXK { if let Some((k, w)) = &s[j] { if *k == p && w_len(w) > 0 { return Some(w_at(w, w_len(w) - 1)); } } j += 1; }
+    while j < MAXK { if let Some((k, w)) = m.slot(j) { if *k == p && w_len(w) > 0 { return Some(w_at(w, w_len(w) - 1)); } } j += 1; }
     None
 }
-pub(crate) fn g_back_at(m: &SkipMap<c_longlong, Injector<T>>, p: c_longlong) -> Option<T> {
-    let s = m.raw();
+pub(crate) fn g_back_at(m: &SkipMap<c_longlong, Injector<It>>, p: c_longlong) -> Option<It> {
     let mut j = 0;
-    while j < MAXK { if let Some((k, q)) = &s[j] { if *k == p && i_len(q) > 0 { return Some(i_at(q, i_len(q) - 1)); } } j += 1; }
+    while j < MAXK { if let Some((k, q)) = m.slot(j) { if *k == p && i_len(q) > 0 { return Some(i_at(q, i_len(q) - 1)); } } j += 1; }
     None
 }
 
 /// the shared queue object, built field by field (OrderedWorkStealQueue::new + local_queue() is what made CBMC explode)
-pub(crate) fn mk_shared(shared: SkipMap<c_longlong, Injector<T>>, l0: SkipMap<c_longlong, Worker<T>>, l1: SkipMap<c_longlong, Worker<T>>) -> OrderedWorkStealQueue<T> {
+pub(crate) fn mk_shared(shared: SkipMap<c_longlong, Injector<It>>, l0: SkipMap<c_longlong, Worker<It>>, l1: SkipMap<c_longlong, Worker<It>>) -> OrderedWorkStealQueue<It> {
     let n = g_items(&shared);
     let mut v = VecDeque::with_capacity(2);
     v.push_back(l0);
@@ -174,7 +169,7 @@ pub(crate) fn mk_shared(shared: SkipMap<c_longlong, Injector<T>>, l0: SkipMap<c_
     OrderedWorkStealQueue { shared_queue: shared, len: AtomicUsize::new(n), local_capacity: CAP, local_queues: v, index: AtomicUsize::new(0) }
 }
 
-pub(crate) fn mk_local<'l>(q: &'l OrderedWorkStealQueue<T>, idx: usize, believed: usize, tick: u32) -> OrderedLocalQueue<'l, T> {
+pub(crate) fn mk_local<'l>(q: &'l OrderedWorkStealQueue<It>, idx: usize, believed: usize, tick: u32) -> OrderedLocalQueue<'l, It> {
     OrderedLocalQueue { tick: AtomicU32::new(tick), shared: q, stealing: AtomicBool::new(false), queue: q.local_queues.get(idx).unwrap(), len: AtomicUsize::new(believed) }
 }
 
@@ -183,7 +178,8 @@ pub(crate) fn mk_local<'l>(q: &'l OrderedWorkStealQueue<T>, idx: usize, believed
 #[kani::proof]
 #[kani::unwind(4)]
 fn q_ordered_tick_contract() {
-    let q = mk_shared(SkipMap::new(), SkipMap::new(), SkipMap::new());
+    let (mut gs, mut s0, mut s1) = (GSlots::empty(), LSlots::empty(), LSlots::empty());
+    let q = mk_shared(gs.map(), s0.map(), s1.map());
     let c: u32 = kani::any();
     let a = mk_local(&q, 0, 0, c);
     let r = a.tick();
@@ -194,40 +190,204 @@ fn q_ordered_tick_contract() {
     std::mem::forget(q);
 }
 
-/// O6.2 + O5 (pop order) + O3 (conservation of this step): from every well-formed state and every tick value,
-/// pop returns the shared queue's front when this is a 61st tick and the shared queue holds work, otherwise the
-/// local queue's front when it holds work; exactly that one item leaves, nothing else moves.
+/// O5/O3 on the real pop_local (the callee contract used by pop's consultation-order unit): from every well-formed
+/// local state it returns the front of the smallest non-empty priority, removes exactly that item, keeps the
+/// counter equal to the content; None iff the queue holds nothing.
 #[kani::proof]
-#[kani::unwind(10)]
-fn q_ordered_pop_order() {
-    let g = any_shared_map(2);
-    let l0 = any_local_map(2);
-    let gf = g_front(&g);
+#[kani::unwind(5)]
+fn q_ordered_pop_local_contract() {
+    let (mut gs, mut s0, mut s1) = (GSlots::empty(), LSlots::any(2), LSlots::empty());
+    let l0 = s0.map();
     let lf = l_front(&l0);
-    let x: T = kani::any();
-    let (gc, lc) = (g_count(&g, x), l_count(&l0, x));
-    let (gn, ln) = (g_items(&g), l_items(&l0));
-    kani::assume(lf.is_some() || gf.is_some()); // the idle case (steal) is q_ordered_idle_pop_finds_work
-    let q = mk_shared(g, l0, SkipMap::new());
-    let c: u32 = kani::any();
-    let a = mk_local(&q, 0, ln, c);
-    unsafe { rand::NEXT_CHOICE = kani::any(); } // the victim order of a steal is any
-    let r = a.pop();
-    let sixty_first = c.wrapping_add(1) % 61 == 0;
-    let from_shared = (sixty_first && gf.is_some()) || lf.is_none();
-    if from_shared {
-        kani::assert(r == gf.map(|e| e.1), "C06.every_61st_pop_serves_the_shared_queue_first");
-        kani::assert(l_items(a.queue) == ln && l_count(a.queue, x) == lc, "C06.local_queue_untouched_when_shared_is_served");
-        kani::assert(g_items(&q.shared_queue) == gn - 1 && q.len() == gn - 1, "C03.shared_len_counts_the_items_it_holds");
-        kani::assert(g_count(&q.shared_queue, x) + (if r == Some(x) { 1 } else { 0 }) == gc, "C03.pop_removes_exactly_the_returned_item");
-    } else {
-        kani::assert(r == lf.map(|e| e.1), "C05.pop_returns_the_front_of_the_smallest_nonempty_priority");
-        kani::assert(g_items(&q.shared_queue) == gn && g_count(&q.shared_queue, x) == gc && q.len() == gn, "C03.shared_queue_untouched_by_a_local_pop");
-        kani::assert(l_items(a.queue) == ln - 1 && a.local_len() == ln - 1, "C03.local_len_counts_the_items_it_holds");
-        kani::assert(l_count(a.queue, x) + (if r == Some(x) { 1 } else { 0 }) == lc, "C03.pop_removes_exactly_the_returned_item");
+    let x: It = kani::any();
+    let (lc, ln) = (l_count(&l0, x), l_items(&l0));
+    let k: c_longlong = kani::any();
+    let at_k = l_count_at(&l0, k, x);
+    let q = mk_shared(gs.map(), l0, s1.map());
+    let a = mk_local(&q, 0, ln, 0);
+    let r = a.pop_local();
+    kani::assert(r == lf.map(|e| e.1), "C05.pop_returns_the_front_of_the_smallest_nonempty_priority");
+    let took = if r.is_some() { 1 } else { 0 };
+    kani::assert(l_items(a.queue) == ln - took && a.local_len() == ln - took, "C03.local_len_counts_the_items_it_holds");
+    kani::assert(l_count(a.queue, x) + (if r == Some(x) { 1 } else { 0 }) == lc, "C03.pop_removes_exactly_the_returned_item");
+    if let Some((fp, fv)) = lf {
+        kani::assert(l_count_at(a.queue, k, x) + (if k == fp && fv == x { 1 } else { 0 }) == at_k, "C05.items_keep_their_priority");
     }
-    kani::cover!(sixty_first && gf.is_some() && lf.is_some(), "C06.cover_61st_tick_with_both_queues_nonempty");
-    kani::cover!(!sixty_first && gf.is_some() && lf.is_some(), "C06.cover_ordinary_tick_with_both_queues_nonempty");
+    kani::cover!(ln == 4, "C05.cover_pop_from_two_full_priorities");
+    kani::cover!(ln == 0, "C05.cover_pop_from_empty");
     std::mem::forget(a);
     std::mem::forget(q);
 }
+
+/// O6.3: an idle local queue (holds nothing; its counter may be stale, Inv_reach) obtains work that is waiting in a
+/// sibling or in the shared queue instead of reporting empty. O3/O5 for the steal: items keep their priority, their
+/// relative order, nothing is lost or duplicated. The shared queue's pop is represented by its contract
+/// (proved in q_ordered_shared_push_pop): it answers Some exactly when it holds work.
+#[kani::proof]
+#[kani::unwind(5)]
+#[kani::stub(OrderedWorkStealQueue::pop, mirror::MS::pop)]
+fn q_ordered_idle_pop_finds_work_start0() { idle_pop_finds_work(0) }
+/// the same with the other random start of the victim scan (two local queues: the draw is 0 or 1)
+#[kani::proof]
+#[kani::unwind(5)]
+#[kani::stub(OrderedWorkStealQueue::pop, mirror::MS::pop)]
+fn q_ordered_idle_pop_finds_work_start1() { idle_pop_finds_work(1) }
+fn idle_pop_finds_work(start: usize) {
+    let (mut gs, mut s0, mut s1) = (GSlots::empty(), LSlots::empty(), LSlots::any(2));
+    let l1 = s1.map();
+    let sf = l_front(&l1);
+    let sv: Option<It> = kani::any(); // what the shared queue holds at its front, if anything
+    kani::assume(sv.is_some() || sf.is_some());
+    let x: It = kani::any();
+    let k: c_longlong = kani::any();
+    let (total_x, total, at_k) = (l_count(&l1, x), l_items(&l1), l_count_at(&l1, k, x));
+    let q = mk_shared(gs.map(), s0.map(), l1);
+    let believed: usize = kani::any();
+    kani::assume(believed <= CAP); // Inv_reach: counter >= content (= 0); a counter never exceeds the capacity
+    let c: u32 = kani::any();
+    kani::assume(c.wrapping_add(1) % 61 != 0); // on a 61st tick the shared queue is served first: q_ordered_pop_consultation_order
+    let a = mk_local(&q, 0, believed, c);
+    unsafe { rand::NEXT_CHOICE = start; STUB_SHARED = sv; NORDER = 0; }
+    let r = a.pop();
+    kani::assert(r.is_some(), "C06.idle_local_queue_obtains_waiting_work");
+    let sib = q.local_queues.get(1).unwrap();
+    match sf {
+        Some((sp, fv)) => {
+            // the sibling held work: the thief is served the sibling's most urgent item, the rest keeps its place
+            kani::assert(r == Some(fv), "C05.steal_serves_the_victims_most_urgent_item_first");
+            kani::assert(l_count(a.queue, x) + l_count(sib, x) + (if fv == x { 1 } else { 0 }) == total_x, "C03.steal_neither_loses_nor_duplicates_an_item");
+            kani::assert(l_items(a.queue) + l_items(sib) + 1 == total, "C03.steal_neither_loses_nor_duplicates_an_item");
+            kani::assert(l_count_at(a.queue, k, x) + l_count_at(sib, k, x) + (if k == sp && fv == x { 1 } else { 0 }) == at_k, "C05.items_keep_their_priority");
+            kani::assert(a.local_len() >= l_items(a.queue), "C04.local_counter_never_below_content");
+        }
+        None => { kani::assert(r == sv, "C06.idle_local_queue_falls_back_to_the_shared_queue"); }
+    }
+    kani::cover!(sf.is_some() && believed == 0, "C06.cover_steal_from_sibling");
+    kani::cover!(sf.is_some() && believed == CAP, "C06.cover_stale_counter_with_sibling_work");
+    kani::cover!(sf.is_none(), "C06.cover_fallback_to_shared");
+    std::mem::forget(a);
+    std::mem::forget(q);
+}
+
+// ---------------------------------------------------------------------------------------------- C05 / C03 / C04: push
+/// From every Inv_reach state a local push returns (unwinding assertions on: O4), keeps every item (O3), appends
+/// the new item behind its equals (O5), moves only the least urgent items to the shared queue on overflow and
+/// keeps their priority (O5), and leaves the counters as Inv_reach demands.
+#[kani::proof]
+#[kani::unwind(5)]
+fn q_ordered_local_push() {
+    let (mut gs, mut s0, mut s1) = (GSlots::any(1), LSlots::any(2), LSlots::empty());
+    let (g, l0) = (gs.map(), s0.map());
+    let x: It = kani::any();
+    let total_x = g_count(&g, x) + l_count(&l0, x);
+    let total = g_items(&g) + l_items(&l0);
+    let content = l_items(&l0);
+    let lf = l_front(&l0);
+    let q = mk_shared(g, l0, s1.map());
+    let believed: usize = kani::any();
+    kani::assume(believed >= content && believed <= CAP);
+    let a = mk_local(&q, 0, believed, 0);
+    let p: c_longlong = kani::any();
+    let v: It = kani::any();
+    let k: c_longlong = kani::any(); // witness priority: every item keeps its key
+    let at_k = l_count_at(a.queue, k, x) + g_count_at(&q.shared_queue, k, x);
+    a.push_with_priority(p, v);
+    kani::assert(g_items(&q.shared_queue) + l_items(a.queue) == total + 1, "C03.push_adds_exactly_one_item");
+    kani::assert(g_count(&q.shared_queue, x) + l_count(a.queue, x) == total_x + (if v == x { 1 } else { 0 }), "C03.push_neither_loses_nor_duplicates_an_item");
+    kani::assert(q.len() == g_items(&q.shared_queue), "C03.shared_len_counts_the_items_it_holds");
+    kani::assert(a.local_len() >= l_items(a.queue) && a.local_len() <= CAP, "C04.local_counter_never_below_content");
+    // whatever moves to the shared queue on overflow keeps its priority; the new item is filed under p
+    kani::assert(l_count_at(a.queue, k, x) + g_count_at(&q.shared_queue, k, x) == at_k + (if k == p && v == x { 1 } else { 0 }), "C05.items_keep_their_priority");
+    // the new item sits at the tail of its priority, in the local queue or (overflow) in the shared one
+    kani::assert(l_back_at(a.queue, p) == Some(v) || g_back_at(&q.shared_queue, p) == Some(v), "C05.push_appends_behind_its_equals");
+    // the most urgent local item stays the most urgent one served, unless the new item is more urgent
+    if let Some((fp, fv)) = lf {
+        if believed < CAP {
+            let nf = l_front(a.queue);
+            kani::assert(nf == Some(if p < fp { (p, v) } else { (fp, fv) }), "C05.push_does_not_reorder_waiting_items");
+        }
+    }
+    kani::cover!(believed == CAP && content == CAP, "C05.cover_overflow_with_full_queue");
+    kani::cover!(believed == CAP && content == 0, "C04.cover_stale_counter_on_push");
+    kani::cover!(believed < CAP, "C05.cover_plain_push");
+    std::mem::forget(a);
+    std::mem::forget(q);
+}
+
+/// shared queue: push appends behind its equals and counts; pop serves the most urgent priority first, FIFO inside
+#[kani::proof]
+#[kani::unwind(5)]
+fn q_ordered_shared_push_pop() {
+    let (mut gs, mut s0, mut s1) = (GSlots::any(2), LSlots::empty(), LSlots::empty());
+    let g = gs.map();
+    let x: It = kani::any();
+    let gx = g_count(&g, x);
+    let n = g_items(&g);
+    let gf = g_front(&g);
+    let q = mk_shared(g, s0.map(), s1.map());
+    if kani::any() {
+        let p: c_longlong = kani::any();
+        let v: It = kani::any();
+        q.push_with_priority(p, v);
+        kani::assert(q.len() == n + 1 && g_items(&q.shared_queue) == n + 1, "C03.shared_len_counts_the_items_it_holds");
+        kani::assert(g_count(&q.shared_queue, x) == gx + (if v == x { 1 } else { 0 }), "C03.push_neither_loses_nor_duplicates_an_item");
+        kani::assert(g_back_at(&q.shared_queue, p) == Some(v), "C05.push_appends_behind_its_equals");
+        if let Some((fp, fv)) = gf { kani::assert(g_front(&q.shared_queue) == Some(if p < fp { (p, v) } else { (fp, fv) }), "C05.push_does_not_reorder_waiting_items"); }
+    } else {
+        let r = q.pop();
+        kani::assert(r == gf.map(|e| e.1), "C05.pop_returns_the_front_of_the_smallest_nonempty_priority");
+        let took = if r.is_some() { 1 } else { 0 };
+        kani::assert(q.len() == n - took && g_items(&q.shared_queue) == n - took, "C03.shared_len_counts_the_items_it_holds");
+        kani::assert(g_count(&q.shared_queue, x) + (if r == Some(x) { 1 } else { 0 }) == gx, "C03.pop_removes_exactly_the_returned_item");
+        kani::cover!(r.is_some() && n == 4, "C05.cover_pop_from_two_full_priorities");
+    }
+    std::mem::forget(q);
+}
+
+// ---- modular contracts (stubs) for the two callees of pop(): each is proved on the real code by its own unit
+// (q_ordered_pop_local_contract, q_ordered_shared_push_pop); at pop()'s call sites only the contract is known.
+pub(crate) static mut STUB_LOCAL: Option<It> = None; // what pop_local will answer
+pub(crate) static mut STUB_SHARED: Option<It> = None; // what the shared pop will answer
+pub(crate) static mut ORDER: [u8; 4] = [0; 4]; // consultation order: 1 = shared, 2 = local
+pub(crate) static mut NORDER: usize = 0;
+pub(crate) fn note(w: u8) { unsafe { if NORDER < 4 { ORDER[NORDER] = w; } NORDER += 1; } }
+/// mirror impls: a stub of a generic method needs the same generics layout and names as the original
+pub(crate) mod mirror {
+    use super::{note, It, STUB_LOCAL, STUB_SHARED};
+    use crate::common::ordered_work_steal::{OrderedLocalQueue, OrderedWorkStealQueue};
+    use std::fmt::Debug;
+    fn cast<T>(v: Option<It>) -> Option<T> { assert!(std::mem::size_of::<T>() == std::mem::size_of::<It>()); v.map(|x| unsafe { std::mem::transmute_copy::<It, T>(&x) }) }
+    pub(crate) struct ML<'l, T: Debug>(std::marker::PhantomData<&'l T>);
+    impl<'l, T: Debug> ML<'l, T> {
+        pub(crate) fn pop_local(_q: &OrderedLocalQueue<'l, T>) -> Option<T> { note(2); cast(unsafe { STUB_LOCAL.take() }) }
+    }
+    pub(crate) struct MS<T: Debug>(std::marker::PhantomData<T>);
+    impl<T: Debug> MS<T> {
+        pub(crate) fn pop(_q: &OrderedWorkStealQueue<T>) -> Option<T> { note(1); cast(unsafe { STUB_SHARED.take() }) }
+    }
+}
+
+/// O6.2 (modular, every tick value): pop consults the shared queue first exactly on every 61st tick and serves its
+/// item when it has one; on every other tick the local queue is served first and the shared queue is not touched.
+/// With O6.1a/O6.1b: an item waiting in the shared queue is returned within 61 consecutive pops of any local queue.
+#[kani::proof]
+#[kani::unwind(5)]
+#[kani::stub(OrderedLocalQueue::pop_local, mirror::ML::pop_local)]
+#[kani::stub(OrderedWorkStealQueue::pop, mirror::MS::pop)]
+fn q_ordered_pop_consultation_order() {
+    let (mut gs, mut s0, mut s1) = (GSlots::empty(), LSlots::empty(), LSlots::empty());
+    let q = mk_shared(gs.map(), s0.map(), s1.map());
+    let c: u32 = kani::any();
+    let a = mk_local(&q, 0, 0, c);
+    let lv: It = kani::any();
+    let sv: Option<It> = kani::any();
+    unsafe { STUB_LOCAL = Some(lv); STUB_SHARED = sv; NORDER = 0; }
+    let r = a.pop();
+    let sixty_first = c.wrapping_add(1) % 61 == 0;
+    unsafe {
+        if sixty_first { kani::assert(ORDER[0] == 1, "C06.every_61st_pop_consults_the_shared_queue_first"); kani::assert(r == if sv.is_some() { sv } else { Some(lv) }, "C06.every_61st_pop_serves_the_shared_queue_first"); }
+        else { kani::assert(ORDER[0] == 2 && NORDER == 1 && r == Some(lv), "C06.other_pops_serve_the_local_queue_first"); }
+    }
+    std::mem::forget(a); std::mem::forget(q);
+}
+
